@@ -16,7 +16,7 @@ from lib import common
 from lib.tlcrun import run_tlc
 from bind import replay_packet as rp
 
-REACH = ["direct", "pair", "rep", "opt", "refsel"]
+REACH = ["direct", "pair", "mid", "rep", "opt", "refsel"]
 NOMV = {"kind": "none"}
 NODESC = {"kind": "none"}
 
@@ -37,6 +37,9 @@ def decl_for(cfg, reach):
         fields = [f]
     elif reach == "pair":
         fields = [f, u1("g")]
+    elif reach == "mid":      # strictly inside a run of struct-coded fields whose ends share a byte order
+        big2 = {"k": "Int", "name": "a", "n": 2, "signed": False, "endian": "big", "dflt": 0, "mv": NOMV, "desc": NODESC}
+        fields = [big2, f, dict(big2, name="b")]
     elif reach == "rep":
         fields = [{"k": "Rep", "name": "f", "elem": intf("e", cfg), "count": {"m": "const", "v": 1}, "until": {"m": "none"},
                    "when": {"m": "none"}, "aligned": 0, "dflt": [], "mv": NOMV}]
@@ -67,7 +70,7 @@ def from_int(x):
 
 
 def wrap(reach, bs):
-    return {"direct": bs, "pair": bs + b"\x5a", "rep": bs, "opt": b"\x01" + bs, "refsel": b"\x01" + bs}[reach]
+    return {"direct": bs, "pair": bs + b"\x5a", "mid": b"\x01\x02" + bs + b"\x03\x04", "rep": bs, "opt": b"\x01" + bs, "refsel": b"\x01" + bs}[reach]
 
 
 def get_value(reach, pkt):
@@ -82,6 +85,8 @@ def make(cls, reach, x):
         return cls(t=1, f=x)
     if reach == "pair":
         return cls(f=x, g=0x5a)
+    if reach == "mid":
+        return cls(a=0x0102, f=x, b=0x0304)
     return cls(f=x)
 
 
@@ -137,7 +142,7 @@ def _wrun(chunk):
         cfg = c["cfg"]
         val = to_int(c["v"])
         over, under = to_int(c["over"]), to_int(c["under"])
-        reaches = REACH if (c.get("all_reach") or cfg["n"] > 2) else ["direct", "pair"]
+        reaches = REACH if (c.get("all_reach") or cfg["n"] > 2) else ["direct", "pair", "mid"]
         for reach in reaches:
             for gen in (rp.GEN_OFF, None):
                 mod = _W["sc"].load(decl_for(cfg, reach), gen)
@@ -219,7 +224,7 @@ def run(tier, seed):
                             rnd.randrange(-2 ** bits, 2 ** bits)])
             try:
                 eb = make(cls, reach, x).pack()
-                pre = 1 if reach in ("opt", "refsel") else 0
+                pre = 1 if reach in ("opt", "refsel") else 2 if reach == "mid" else 0
                 eb = eb[pre:pre + cfg["n"]]
                 ok = True
             except Exception:
